@@ -35,7 +35,7 @@ fn minsum(vals: &[i64], skip: usize) -> i64 {
         if x < 0 { neg = !neg; }
         mag = Some(mag.map_or(x.abs(), |m| m.min(x.abs())));
     }
-    let m = mag.unwrap_or(0);
+    let m = mag.unwrap_or(1000); // MinSum.tla BigMag: a check of degree one says "this bit is 0"
     if neg { -m } else { m }
 }
 
@@ -222,11 +222,14 @@ pub fn generate(a: &Args) {
     // (1) results of the real generic decoders with the checker-supplied exact arithmetic
     let n1 = if th { 30000 } else { 1500 };
     for i in 0..n1 {
-        let (rows, n) = match i % 4 {
+        let (mut rows, n) = match i % 4 {
             0 => random_forest(&mut rng, 6, 10),
             1 => random_code(&mut rng, i, 4, 7),
             _ => random_code(&mut rng, i, 6, 12),
         };
+        // C03 quantifies over ALL matrices: checks of degree one (and zero) as well
+        if i % 5 == 3 { let r = rng.below(rows.len()); rows[r].truncate(1); }
+        if i % 17 == 11 { let r = rng.below(rows.len()); rows[r].clear(); }
         let span = [2i64, 5, 9, 40][i % 4];
         let llrs: Vec<f64> = (0..n).map(|_| rng.range(-span, span) as f64).collect();
         let limit = [0usize, 1, 2, 3, 4, 6, 10][i % 7];
